@@ -807,3 +807,65 @@ Proof.
     + split; [intros _; right; eauto|eauto].
   - split; [intros _; left; eauto|eauto].
 Qed.
+
+(* ---- the fit clause at writer level: every caption- and node-level layout of the transformed set ------------- *)
+Definition fitted (r : layout) : Prop :=
+  forall o, l_origin r = Some o -> in_safe_area o = true ->
+  exists e, l_extent r = Some e /\ s_unit (st_h e) = PCT /\ s_unit (st_v e) = PCT
+            /\ (s_val (p_x o) + s_val (st_h e) <= 90)%Q /\ (s_val (p_y o) + s_val (st_v e) <= 95)%Q.
+Definition opt_fitted (o : option layout) : Prop := match o with Some r => fitted r | None => True end.
+
+Lemma all_pct_extent : forall l, all_pct l = true ->
+  match l_extent l with Some e => s_unit (st_h e) = PCT /\ s_unit (st_v e) = PCT | None => True end.
+Proof.
+  intros [o e p al wv] H. unfold all_pct, sizes_axes in H. cbn [l_origin l_extent l_padding] in *.
+  destruct e as [[eh ev]|]; [|exact I]. rewrite !forallb_app in H. apply andb_true_iff in H. destruct H as [_ H].
+  apply andb_true_iff in H. destruct H as [H _]. cbn [forallb fst st_h st_v] in H.
+  apply andb_true_iff in H. destruct H as [H1 H]. apply andb_true_iff in H. destruct H as [H2 _].
+  apply unit_eqb_eq in H1, H2. split; assumption.
+Qed.
+
+Lemma layout_fit_fitted : forall l1 r, all_pct l1 = true -> layout_fit l1 = Ok r -> fitted r.
+Proof.
+  intros l1 r P H o Ho Hs. destruct (layout_fit_keeps _ _ H) as (Ko & _). rewrite Ko in Ho.
+  destruct (fit_safe l1 o Ho Hs (all_pct_extent _ P)) as (e' & Hf & U1 & U2 & R1 & R2 & _).
+  rewrite Hf in H. inversion H; subst. cbn [l_extent]. eauto 10.
+Qed.
+
+Theorem raf_fitted : forall c o o', w_rel c = true -> w_fit c = true -> raf c o = Ok o' -> opt_fitted o'.
+Proof.
+  intros c [l|] o' Hr Hf H; cbn [raf] in H; [|inversion H; exact I].
+  rewrite Hr, Hf in H. unfold relativize_and_fit in H. destruct (layout_truthy l) eqn:T.
+  - destruct (layout_as_pct l (w_w c) (w_h c)) as [l1|] eqn:E; [|discriminate]. cbn [bind] in H.
+    destruct (layout_fit l1) as [r|] eqn:F; [|discriminate]. cbn [bind] in H. inversion H; subst. cbn [opt_fitted].
+    eapply layout_fit_fitted; [eapply layout_as_pct_all_pct; eauto|exact F].
+  - cbn [bind] in H. inversion H; subst. cbn [opt_fitted]. intros o Ho _.
+    unfold layout_truthy in T. rewrite Ho in T. destruct (l_extent l), (l_padding l), (l_alignment l), (l_webvtt l) as [[|]|]; discriminate.
+Qed.
+
+Definition cap_node_layouts (s : nset) : list (option layout) :=
+  flat_map (fun lg => flat_map (fun cp => nc_layout cp :: map n_layout (nc_nodes cp)) (nl_caps lg)) (ns_langs s).
+
+Lemma nodes_fitted : forall c ns ns', w_rel c = true -> w_fit c = true -> Forall2 (node_step c) ns ns' ->
+  Forall opt_fitted (map n_layout ns').
+Proof.
+  intros c ns ns' Hr Hf H. induction H as [|n n' t t' [Hn _] _ IH]; constructor; [eapply raf_fitted; eauto|exact IH].
+Qed.
+
+Lemma caps_fitted : forall c cs cs', w_rel c = true -> w_fit c = true -> Forall2 (cap_step c) cs cs' ->
+  Forall opt_fitted (flat_map (fun cp => nc_layout cp :: map n_layout (nc_nodes cp)) cs').
+Proof.
+  intros c cs cs' Hr Hf H. induction H as [|x y t t' [Hc Hn] _ IH]; [constructor|].
+  cbn [flat_map]. apply Forall_app. split; [|exact IH].
+  constructor; [eapply raf_fitted; eauto|eapply nodes_fitted; eauto].
+Qed.
+
+(* DFXP with relativization and fit on: every caption- and node-level layout that is written and whose origin lies in the
+   safe area has an extent, right edge <= 90, bottom edge <= 95 (the language level is NOT fitted: known finding) *)
+Theorem dfxp_fit_levels : forall c s s', w_rel c = true -> w_fit c = true -> dfxp_transform c s = Ok s' ->
+  Forall opt_fitted (cap_node_layouts s').
+Proof.
+  intros c s s' Hr Hf H. destruct (dfxp_transform_levels c s s' H) as [_ L]. unfold cap_node_layouts.
+  induction L as [|lg lg' t t' [_ Hc] _ IH]; [constructor|]. cbn [flat_map]. apply Forall_app. split; [|exact IH].
+  eapply caps_fitted; eauto.
+Qed.
